@@ -2864,6 +2864,10 @@ func hijackConnHandler(ctx *RequestCtx, r io.Reader, c net.Conn, s *Server, h Hi
 	} else if ctx.fbr.c != nil {
 		// With ReduceMemoryUsage the buffered reader of the kept connection
 		// reads through ctx.fbr, so ctx must stay with that connection too.
+		// The request and response are finished though: release what they hold
+		// (body buffers, multipart temp files).
+		ctx.Request.Reset()
+		ctx.Response.Reset()
 		return
 	}
 	s.releaseCtx(ctx)
